@@ -46,6 +46,8 @@ def to_pandas(frame):
     df = pd.DataFrame(data)
     if frame.get("index") is not None:
         df.index = frame["index"]
+    if frame.get("index_name") is not None:
+        df.index.name = frame["index_name"]
     return df
 
 
